@@ -92,6 +92,14 @@ def corpus(b, rng, quick):
         c.append((["strptime", "-i", "%Y-%m-%d %H:%M:%S", "-t", v], None))
         c.append((["strptime", "-i", "%Y-%m-%d %H:%M:%S", v], None))
     # underspecified input with --base
+    # the base in every notation a value can be written in: seconds since the epoch, date-time, ISO week date, ordinal date, n-th weekday
+    for base in ("@1454494272", "@1000000000", "2016-02-03T10:11:12", "2016-W05-3", "2016-034", "2016-02-01-03", "@0"):
+        c.append((["dconv", "--base", base, "-i", "%d", "17"], None))
+        c.append((["dconv", "--base", base, "-i", "%y-%m-%d", "52-01-01"], None))
+        c.append((["dadd", "--base", base, "-i", "%d %b", "8 Mar", "+1d"], None))
+        c.append((["dround", "--base", base, "-i", "%m/%d", "03/08", "Fri"], None))
+        c.append((["dseq", "--base", base, "-i", "%m-%d", "03-08", "03-10"], None))
+        c.append((["ddiff", "-i", "%m-%d", "--base", base, "03-15", "05-15"], None))
     for base in ("2012-01-15", "2012-07-15", "1999-12-31"):
         c.append((["dconv", "--base", base, "-i", "%d", "17"], None))
         c.append((["dconv", "--base", base, "-i", "%m-%d", "03-08"], None))
